@@ -79,7 +79,10 @@ def st4_band_integrated_saturation(
                     - radian_direction[direction_index]
                     + np.pi
                 ) % (2 * np.pi) - np.pi
-                if np.abs(mutual_angle) > integration_width_radians:
+                # A direction exactly on the edge of the band (e.g. +-80 degrees on a
+                # 10 degree grid) belongs to the band; the small tolerance keeps that
+                # decision independent of rounding in the angle difference.
+                if np.abs(mutual_angle) > integration_width_radians + 1e-9:
                     continue
 
                 integrant += (
